@@ -1,4 +1,4 @@
-CONSTANT NAlpha = 4
+CONSTANT NAlpha = 5
 SPECIFICATION Spec
 INVARIANT SpecOk
 INVARIANT Emit
